@@ -294,4 +294,10 @@ def run(rep):
                     nrand += 1
                     rep.proved("R18.d", rel, q, f"{d} (global seedable generator)", line=n.lineno)
     rep.floor("random sources", nrand, 8)
+    # repeatability also needs every heap scratch array of a kernel to be initialised before it is read or copied out: recycled heap content
+    # differs from call to call (the initialisation clauses of the CRPS kernel are decided for C03)
+    from ..core import borrow
+    nb_ = borrow(rep, "C03", "R18.e", "scratch arrays of the kernels are initialised before accumulation / output (clauses decided for C03): uninitialised heap content makes "
+                 "repeated calls differ", lambda e: e.rule == "R03.d" and ("zero-initialised" in (e.construct or "") or "fresh zero array" in (e.construct or "")))
+    rep.floor("scratch-initialisation clauses taken over from C03", nb_, 3)
     return EXPLANATION
